@@ -45,7 +45,7 @@ ASSUMPTIONS = [
     "for accepted foreign payloads one decode-encode pass must reach a fixed point that decodes to the same value",
 ]
 MUST_REACH = {"serializer_keys_covered": 180, "int_raw_checks": 100000, "byte_payload_checks": 1000,
-              "fuzz_accepted": 50, "literal_checks": 10000, "literal_checks_through_library_printer": 5000, "refused_encodes_before_good_ones": 60, "block_api_checks": 500, "block_member_assignments": 50, "block_pretty_assignments": 100, "block_values_scribbled": 40, "tz_covered": 3,
+              "fuzz_accepted": 50, "literal_checks": 10000, "literal_checks_through_library_printer": 5000, "refused_encodes_before_good_ones": 60, "template_reloads_provoked": 3, "values_encoded_after_template_reload": 20, "block_api_checks": 500, "block_member_assignments": 50, "block_pretty_assignments": 100, "block_values_scribbled": 40, "tz_covered": 3,
               "negative_raws_on_signed_flag_fields": 10, "context_values": 20}
 
 
@@ -576,9 +576,53 @@ def check_bytes_key(ctx, rng, key, ser, var):
                 if bytes(block[vname]) != p:
                     ctx.violation("block-serialize-var-differs", "Block.serialize_var did not restore the payload",
                                   {"key": list(key), "payload": p[:200], "got": bytes(block[vname])[:200]})
+                if len(_HELD) < 60 and ctx.counters.get("block_api_checks", 0) % 2 == 0:
+                    # kept for the end of the run: value decoded now, encoded after the templates module was reloaded
+                    _HELD.append((key, label, block, vname, p, block.deserialize_var(vname)))
             except Exception as e:
                 ctx.violation("block-api-raises", "Block.deserialize_var/serialize_var raised on an own payload",
                               {"key": list(key), "context": label, "payload": p[:200], "exc": repr(e)[:200]})
+
+
+_HELD = []
+
+
+def encode_after_template_reload(ctx):
+    """The library reloads its templates module when the file changed on disk (development aid, checked whenever a Message is
+    built).  A value that was decoded before such a reload is still a value: written back through the Block API afterwards it
+    gives the bytes it came from.  Run last in its shard (the reload replaces the registered serializers for the rest of the
+    process); the reload is provoked by making the remembered time stamp look old - no file is touched."""
+    import hippolyzer.lib.base.message.message as msgmod
+    from hippolyzer.lib.base.message.message import Message
+    if not _HELD:
+        return
+    old_serializers = dict(se.SUBFIELD_SERIALIZERS)
+    msgmod._TEMPLATES_MTIME = 0
+    try:
+        Message("TestMessage")
+    except Exception as e:
+        ctx.inconclusive_because(f"could not provoke a template reload: {e!r}"[:200])
+        return
+    if all(se.SUBFIELD_SERIALIZERS.get(k) is v for k, v in old_serializers.items()):
+        ctx.inconclusive_because("template reload did not re-register the serializers")
+        return
+    ctx.count("template_reloads_provoked")
+    for (key, label, block, vname, p, v) in _HELD:
+        ctx.ev()
+        try:
+            block[vname] = p
+            block.serialize_var(vname, v)
+            got = bytes(block[vname])
+        except Exception as e:
+            ctx.violation("value-from-before-reload-not-encodable:" + type(e).__name__, "a value decoded before the templates module "
+                          "was reloaded could not be written back afterwards", {"key": list(key), "context": label, "payload": p[:200],
+                                                                              "exc": repr(e)[:200]})
+            continue
+        if got != p:
+            ctx.violation("value-from-before-reload-encodes-differently", "a value decoded before the templates module was reloaded "
+                          "was written back as other bytes", {"key": list(key), "payload": p[:200], "got": got[:200]})
+            continue
+        ctx.count("values_encoded_after_template_reload")
 
 
 def _scribble(v, depth=0):
@@ -664,6 +708,7 @@ def run(ctx):
         if len(ctx.samples) < 3:
             ctx.sample({"key": list(key), "serializer": name, "wire_type": var.type.name, "tz": tz})
     ctx.flag("stale_registrations", stale)
+    encode_after_template_reload(ctx)
 
 
 def replay(ctx, w):
